@@ -105,6 +105,7 @@ pub proof fn d6_loop_left_early()
                             rnew_pkts_ok(p0, packets@, seq0, channel_id, message_id, um0, current_time, resend_time, sm0),
                             *packet_sequence == seq0 + (packets@.len() - p0.len()),
                             packets@.len() - p0.len() <= __k1,
+                            packets@.len() - p0.len() <= avail0 - *available_bytes,
                             packets_payload(packets@) + *available_bytes == packets_payload(p0) + avail0,   // @C14 send_loop.inv_slice_payload_equals_budget_consumed
                             *available_bytes <= avail0,
                             small_messages@ == sm0, *small_messages_bytes == smb0,
